@@ -1,37 +1,92 @@
 """C20 — clear_config returns the configuration to its pristine state."""
+import atexit
 import itertools
+import json
+import os
+import shutil
+import subprocess
+import tempfile
 
-from vf import probes, snap
+from vf import core, probes, snap
 
 ID = 'C20'
 LEVEL = 'exploration'
-RULE = ('random histories over {parse ok (bindings, macros, imports, references), parse failing midway (syntax / semantic), bind_parameter, probe calls in '
-        'scopes (operative record), finalize ok / rejected, unlock_config block, singleton use, gin.constant incl. overlapping names defined in '
-        'interactive mode, constants_from_enum} followed by clear_config() or clear_config(clear_constants=True), possibly several rounds; oracle: the call '
-        'does not raise and every observable equals the pristine baseline recorded in the same worker right after registration: config_str, '
-        'operative_config_str, lock flag, every previously bound key unqueryable, probes receive only defaults, singletons reconstructed, no recorded '
-        'imports, constants identical (same names, same objects) or exactly {gin.REQUIRED}, configurables still resolve. '
-        'distinct = (operation-kind sequence, clear flavour)')
+RULE = ('random histories over {parse ok (bindings, macros, imports, references), parse failing midway (syntax / semantic / failing import), parse_config_file '
+        '(with include), parse_config_files_and_bindings(finalize_config=True), bind_parameter (also of a macro, of an unknown configurable, under lock), '
+        'probe calls in scopes (operative record), a configurable raising mid-call, finalize ok / rejected / with a hook registered mid-history, '
+        'unlock_config block, singleton use (reference and singleton_value), gin.constant incl. duplicates and overlapping names defined in interactive mode '
+        '(exact-match and ambiguous overlaps, either order), constants_from_enum, configurables registered mid-history (external_configurable / register / '
+        'configurable / dynamic-registration parse)} followed by clear_config() or clear_config(clear_constants=True), possibly several rounds; oracle: a '
+        'small model of the round (store, lock, macros, constants) predicts finalize accepted / rejected, the bindings in effect and the lock flag before '
+        'the clear; the clear does not raise and every observable equals the pristine baseline recorded in the same worker right after registration: '
+        'config_str, operative_config_str, lock flag, every previously bound key unqueryable, probes receive only defaults, singletons reconstructed, no '
+        'recorded imports, constants identical (same names, same objects; every abbreviation of every surviving constant resolves / is ambiguous exactly as '
+        'the suffix model says, through query_parameter and through a parsed %NAME delivered to a call) or exactly {gin.REQUIRED} (every abbreviation free '
+        'again), configurables registered before and during the history still resolve and can be bound; fixed programs of operations run right after the '
+        'clear (parse, bind, finalize, calls, queries, config_str, operative_config_str) give step by step what they give in a fresh interpreter with the '
+        'same registrations. distinct = (operation-kind sequence, clear flavour)')
 TIERS = {
-    'quick': {'workers': 8, 'cases': 2800, 'timeout': 600},
+    'quick': {'workers': 8, 'cases': 2500, 'timeout': 600},      # 2800 before the histories grew (audit extension): same budget
     'thorough': {'workers': 16, 'cases': 20000, 'timeout': 3000},
 }
 OPS = ['parse', 'parse-fails', 'bind', 'call', 'finalize', 'finalize-rejected', 'unlock', 'singleton', 'singleton-ctor-fails', 'constant',
-       'constant-interactive-overlap', 'enum', 'import', 'call-then-bind-then-call']
+       'constant-interactive-overlap', 'enum', 'import', 'call-then-bind-then-call',
+       # added after the audit of the check
+       'parse-macro-ref-unbound', 'parse-file', 'files-and-bindings-finalize', 'bind-macro', 'singleton-direct', 'finalize-hook', 'bind-unknown',
+       'import-fails', 'call-raises', 'constant-duplicate', 'constant-overlap-ambiguous', 'register-mid-history', 'dynamic-registration']
 # further workloads for the property's online monitor (vf/online.py): the repository's tests and other checks' generated cases
 ONLINE = {'which': ['clear'], 'foreign': ['C01', 'C04', 'C05', 'C06', 'C07', 'C10', 'C11', 'C12', 'C13', 'C17'], 'n': {'quick': 30, 'thorough': 400}}
 REQUIRED_BUCKETS = ['op:' + o for o in OPS] + ['clear:keep-constants', 'clear:clear-constants', 'state:locked-at-clear', 'state:operative-nonempty-at-clear',
-                                                'state:imports-at-clear', 'state:singletons-at-clear', 'state:overlapping-constants-at-clear', 'rounds:2+', 'state:abbreviation-looked-up-before-clear', 'state:failed-singleton-constructor-before-clear']
+                                                'state:imports-at-clear', 'state:singletons-at-clear', 'state:overlapping-constants-at-clear', 'rounds:2+', 'state:abbreviation-looked-up-before-clear', 'state:failed-singleton-constructor-before-clear',
+                                                'model:finalize-accepted', 'model:finalize-rejected-unbound-macro', 'model:finalize-rejected-unbound-macro-in-later-round',
+                                                'model:finalize-rejected-already-locked', 'model:bindings-checked-before-clear-in-later-round', 'model:deliveries-checked-before-clear',
+                                                'model:mutation-under-lock',
+                                                'lookup:resolved-after-keep-clear', 'lookup:ambiguous-after-keep-clear', 'lookup:overlap-exact-after-keep-clear',
+                                                'lookup:delivered-to-call-after-keep-clear', 'lookup:enum-after-keep-clear',
+                                                'cleared:enum-name-free', 'cleared:overlap-name-free', 'cleared:every-abbreviation-unanswered',
+                                                'registered:mid-history-checked-after-clear', 'registered:dynamic-checked-after-clear',
+                                                'singleton:direct-checked-after-clear', 'hook:registered-mid-history',
+                                                'fresh:compared'] + ['fresh:program-%d' % i for i in range(8)]
 ORACLE_COUNTERS = ['oracle_evals', 'clears_checked']
 _S = {}
 _n = itertools.count(1)
 SINGLETON_CONFIG = ('shared/gin.singleton.constructor = @c20ctor\ndeep/er/gin.singleton.constructor = @c20ctor\n'
                     'c20use.s = [@shared/gin.singleton(), @deep/er/gin.singleton()]\n')
+FULL_PARSE = "c20f.x = %d\nsc/c20f.y = [1, @c20g()]\nc20m = 'macro'\nc20g.a = %%c20m\n"
+PROBE_SCOPES = ['', 'sc', 'a/b', 'x/y/z', 'file', 'hk']
+DYNAMIC_TARGETS = [('decoder', 'JSONDecoder', 'strict', False, True), ('encoder', 'JSONEncoder', 'sort_keys', True, False)]
+MARK = '@@C20FRESH@@'
+
+# Programs of operations run right after a clear_config and, once per worker, in a fresh interpreter with the same registrations (no history, no
+# clear_config). They use no constants (constants may legitimately survive the clear) and no finalize hook, and nothing registered mid-history.
+EPILOGUES = [
+    # 0: a macro bound (and validated by finalize) before the clear is unbound afterwards
+    [('parse', 'c20g.a = %c20m\n'), ('finalize',), ('locked',), ('config_str',), ('call', ''), ('operative',)],
+    # 1: a full configuration, finalized, mutation under lock
+    [('parse', FULL_PARSE % 7), ('finalize',), ('locked',), ('bind', 'c20f.x', 9), ('config_str',), ('call', 'sc'), ('call', ''), ('operative',),
+     ('query', 'c20f.x'), ('query', 'sc/c20f.y'), ('bindings', 'c20.c20f')],
+    # 2: Python-side bindings in nested scopes
+    [('bind', 'a/b/c20f.x', 5), ('bind', 'a/c20f.y', 'mid'), ('call', 'a/b'), ('call', 'a'), ('call', 'x/y/z'), ('operative',), ('config_str',),
+     ('query', 'a/b/c20f.x'), ('query', 'c20f.x')],
+    # 3: singletons
+    [('parse', SINGLETON_CONFIG), ('singletons',), ('config_str',), ('operative',), ('finalize',), ('locked',), ('singletons',)],
+    # 4: imports, finalize, unlock
+    [('parse', 'import os.path\nfrom json import decoder as dec\nc20f.x = 3\n'), ('config_str',), ('call', ''), ('operative',), ('finalize',),
+     ('unlock-bind', 'c20f.x', 4), ('call', ''), ('operative',), ('locked',)],
+    # 5: finalize of the empty configuration
+    [('finalize',), ('locked',), ('bind', 'c20f.x', 1), ('parse', 'c20f.x = 2\n'), ('config_str',), ('call', ''), ('operative',)],
+    # 6: a call on an unbound macro, rejected finalize, then repaired
+    [('parse', 'c20f.y = %c20_never_bound_macro\n'), ('call', ''), ('operative',), ('config_str',), ('finalize',), ('locked',),
+     ('parse', 'c20_never_bound_macro = 3\n'), ('finalize',), ('locked',), ('call', ''), ('operative',)],
+    # 7: nothing bound; a macro bound from Python
+    [('query', 'c20f.x'), ('bindings', 'c20.c20f'), ('call', 'sc'), ('operative',), ('config_str',), ('bind', '%c20m', 12), ('query', '%c20m'),
+     ('parse', 'c20g.a = %c20m\n'), ('call', ''), ('config_str',), ('finalize',), ('locked',)],
+]
 
 
-def setup(ctx):
+def register_all():
+  """The registrations of a worker; a fresh interpreter used for comparison performs exactly these."""
   import gin
-  from gin import config as gc
   _S['f'] = probes.build({'shape': 'fn', 'api': 'configurable', 'name': 'c20f', 'module': 'c20', 'pos': [], 'dflt': [['x', 0], ['y', 'd']], 'varargs': False,
                           'kwonly': [], 'varkw': False})
   _S['g'] = probes.build({'shape': 'init', 'api': 'external', 'name': 'c20g', 'module': 'c20', 'pos': [], 'dflt': [['a', 1]], 'varargs': False, 'kwonly': [],
@@ -49,9 +104,193 @@ def setup(ctx):
   def use(s=None):
     return s
 
+  @gin.configurable('c20boom', module='c20')
+  def boom(x=0):
+    raise KeyError('c20boom %r' % (x,))
+
   _S['use'] = use
+  _S['ctor'] = ctor
+  _S['boom'] = boom
+
+
+def setup(ctx):
+  import gin
+  from gin import config as gc
+  register_all()
   gin.clear_config(clear_constants=True)
   _S['pristine'] = observe(gin, gc)
+  # config files for the file-based entry points
+  d = tempfile.mkdtemp(prefix='c20-')
+  atexit.register(shutil.rmtree, d, True)
+  _S['file_a'] = os.path.join(d, 'a.gin')
+  _S['file_inc'] = os.path.join(d, 'inc.gin')
+  with open(_S['file_a'], 'w') as fh:
+    fh.write("c20f.x = 11\nfile/c20f.y = 'from-file'\n")
+  with open(_S['file_inc'], 'w') as fh:
+    fh.write("include '%s'\nc20g.a = 12\n" % _S['file_a'])
+  # what the programs give in a fresh interpreter: started now, collected at first use
+  code = 'import sys; sys.path[:0] = [%r, %r]; from vf.checks import c20; c20.fresh_main()' % (core.repo_root(), core.VERIF)
+  _S['fresh_proc'] = subprocess.Popen([core.PY, '-c', code], stdout=subprocess.PIPE, stderr=subprocess.PIPE, text=True,
+                                      env=dict(os.environ, PYTHONHASHSEED='0', PYTHONDONTWRITEBYTECODE='1'))
+  _S['fresh'] = None
+
+
+# ---------------------------------------------------------------------------
+# programs run after the clear and in a fresh interpreter
+
+
+def plain(v):
+  if v is None or isinstance(v, (bool, int, float, str)):
+    return v
+  if isinstance(v, (list, tuple)):
+    return [type(v).__name__] + [plain(x) for x in v]
+  if isinstance(v, dict):
+    return ['dict'] + sorted([[plain(k), plain(x)] for k, x in v.items()], key=repr)
+  return 'T:' + type(v).__name__
+
+
+def run_epilogue(prog):
+  import gin
+  f, g, use = _S['f'], _S['g'], _S['use']
+  names = {f.pid: 'c20f', g.pid: 'c20g'}
+  out = []
+  for step in prog:
+    kind = step[0]
+    try:
+      r = None
+      if kind == 'parse':
+        gin.parse_config(step[1])
+      elif kind == 'bind':
+        gin.bind_parameter(step[1], step[2])
+      elif kind == 'unlock-bind':
+        with gin.unlock_config():
+          gin.bind_parameter(step[1], step[2])
+      elif kind == 'finalize':
+        gin.finalize()
+      elif kind == 'locked':
+        r = gin.config_is_locked()
+      elif kind == 'config_str':
+        r = gin.config_str()
+      elif kind == 'operative':
+        r = gin.operative_config_str()
+      elif kind == 'query':
+        r = plain(gin.query_parameter(step[1]))
+      elif kind == 'bindings':
+        r = plain(gin.get_bindings(step[1]))
+      elif kind == 'singletons':
+        a, b = use(), use()
+        r = [a[0] is b[0], a[1] is b[1], a[0] is a[1]]
+      elif kind == 'call':
+        r = []
+        for p in (f, g):
+          mark = probes.RECORDER.mark()
+          try:
+            with gin.config_scope(step[1] or None):
+              p.conf()
+            oc = 'ok'
+          except Exception as e:  # pylint: disable=broad-except
+            oc = 'raise ' + type(e).__name__
+          r.append([oc, [[names.get(x.pid, x.pid), plain(x.received)] for x in probes.RECORDER.since(mark)]])
+      else:
+        raise AssertionError(kind)
+      out.append(['ok', r])
+    except AssertionError:
+      raise
+    except Exception as e:  # pylint: disable=broad-except
+      out.append(['raise', type(e).__name__])
+  return out
+
+
+def fresh_main():
+  """Entry of the fresh interpreter: registrations only, then every program in a forked child of this never-configured process."""
+  import sys
+  import gin
+  register_all()
+  res = []
+  for prog in EPILOGUES:
+    rd, wr = os.pipe()
+    pid = os.fork()
+    if pid == 0:
+      os.close(rd)
+      try:
+        data = json.dumps(run_epilogue(prog))
+      except BaseException as e:  # pylint: disable=broad-except
+        data = json.dumps({'error': repr(e)})
+      with os.fdopen(wr, 'w') as fh:
+        fh.write(data)
+      os._exit(0)
+    os.close(wr)
+    with os.fdopen(rd) as fh:
+      data = fh.read()
+    os.waitpid(pid, 0)
+    res.append(json.loads(data))
+  sys.stdout.write(MARK + json.dumps({'gin': os.path.realpath(gin.__file__), 'programs': res}) + '\n')
+
+
+def fresh_expected():
+  if _S['fresh'] is None:
+    p = _S['fresh_proc']
+    try:
+      out, err = p.communicate(timeout=180)
+    except subprocess.TimeoutExpired:
+      p.kill()
+      raise core.Inconclusive('C20: fresh interpreter timed out')
+    line = [l for l in out.splitlines() if l.startswith(MARK)]
+    if not line:
+      raise core.Inconclusive('C20: fresh interpreter failed: %s' % err[-800:])
+    res = json.loads(line[0][len(MARK):])
+    if not res['gin'].startswith(core.repo_root() + os.sep) or any(isinstance(x, dict) for x in res['programs']):
+      raise core.Inconclusive('C20: fresh interpreter unusable: %r' % (res,))
+    _S['fresh'] = res['programs']
+  return _S['fresh']
+
+
+def compare_with_fresh(ctx, idx, cc):
+  exp = fresh_expected()[idx]
+  got = json.loads(json.dumps(run_epilogue(EPILOGUES[idx])))
+  ctx.bucket('fresh:compared')
+  ctx.bucket('fresh:program-%d' % idx)
+  for i, (step, e, g) in enumerate(zip(EPILOGUES[idx], exp, got)):
+    if not ctx.check(e == g, 'after-clear-differs-from-fresh-process:' + step[0],
+                     'after clear_config(clear_constants=%s), step %d %r of program %d gives %s, in a fresh interpreter with the same registrations %s'
+                     % (cc, i, step, idx, core.short(g, 700), core.short(e, 700))):
+      break
+
+
+# ---------------------------------------------------------------------------
+# the model of one round
+
+
+class Model:
+
+  def __init__(self, consts):
+    self.store = {}       # binding key as written -> ('lit', v) | ('obj',) | ('ref',) | ('macro', name) | ('const', full name)
+    self.locked = False
+    self.consts = consts  # full name -> value (survives rounds unless cleared)
+
+  def unbound_macro(self):
+    return any(d[0] == 'macro' and ('%' + d[1]) not in self.store for d in self.store.values())
+
+  def effective(self, scope, sel_arg):
+    parts = scope.split('/') if scope else []
+    val = None
+    for i in range(len(parts) + 1):
+      key = '/'.join(parts[:i] + [sel_arg])
+      if key in self.store:
+        val = self.store[key]
+    return val
+
+
+def suffixes(name):
+  parts = name.split('.')
+  return ['.'.join(parts[i:]) for i in range(len(parts) - 1, -1, -1)]
+
+
+def const_matches(names, partial):
+  """Independent model of partial constant names: an exact full name wins, otherwise every name ending in '.partial'."""
+  if partial in names:
+    return [partial]
+  return [n for n in names if n.endswith('.' + partial)]
 
 
 def observe(gin, gc):
@@ -64,7 +303,8 @@ def iter_cases(ctx, rng, n):
     rounds = []
     for _ in range(rng.choice([1, 1, 2, 3])):
       ops = [rng.choice(OPS) for _ in range(rng.randrange(1, 9))]
-      rounds.append({'ops': ops, 'clear_constants': rng.random() < 0.4})
+      rounds.append({'ops': ops, 'clear_constants': rng.random() < 0.4, 'probe': rng.random() < 0.5,
+                     'epilogue': rng.randrange(len(EPILOGUES)) if rng.random() < 0.2 else None})
     yield {'rounds': rounds}
 
 
@@ -72,38 +312,133 @@ def constants_view(gc):
   return {k: v for k, v in gc._CONSTANTS.items()}
 
 
+def _finalize_hook(config):
+  # returns bindings only while a history asks for it: whether hooks survive clear_config is not pinned down, so at any other time
+  # (in particular after the clear) this hook is indistinguishable from no hook
+  if _S.get('hook_active'):
+    return {'hk/c20f.y': 'hooked'}
+  return None
+
+
 def run_case(ctx, case):
   import enum
+  import json.decoder
+  import json.encoder
   import gin
   from gin import config as gc
   f, g, use = _S['f'], _S['g'], _S['use']
   if len(case['rounds']) >= 2:
     ctx.bucket('rounds:2+')
   shape = []
-  for rnd in case['rounds']:
+  consts = {'gin.REQUIRED': gin.REQUIRED}
+  registered = []     # (object handed to get_configurable, selector, arg) registered during this case's histories
+  dynamic = set()
+  for rno, rnd in enumerate(case['rounds']):
+    M = Model(consts)
     bound_keys = []
     short_names = []
     used_scopes = set()
     failed_singleton = False
     pre_singleton = None
+    direct_singleton = None
     overlapping = False
+
+    def mutate(fn, updates, unlock=False):
+      """A binding-type mutation: takes effect unless the configuration is locked (then RuntimeError and, by what is observed, nothing)."""
+      if unlock:
+        with gin.unlock_config():
+          fn()
+      elif M.locked:
+        ctx.bucket('model:mutation-under-lock')
+        try:
+          fn()
+        except RuntimeError:
+          return False
+      else:
+        fn()
+      M.store.update(updates)
+      bound_keys.extend(updates)      # macros ('%name') included: they are bindings too
+      return True
+
+    def finalize_like(fn, updates_before=None):
+      """fn ends in gin.finalize(): accepted iff unlocked and no binding refers to an unbound macro (as in a fresh process)."""
+      was_locked = M.locked
+      try:
+        fn()
+        rejected = None
+      except Exception as e:  # pylint: disable=broad-except
+        # the class is not the statement's business (with imports of a dynamic-registration parse on record, the rejection of an unbound
+        # macro surfaces as the failure to render the message: the probes live in no importable module)
+        rejected = e
+      if updates_before and not was_locked:
+        M.store.update(updates_before)
+        bound_keys.extend(updates_before)
+      expect_rejected = was_locked or M.unbound_macro()
+      if was_locked:
+        ctx.bucket('model:finalize-rejected-already-locked')
+      elif expect_rejected:
+        ctx.bucket('model:finalize-rejected-unbound-macro')
+        if rno:
+          ctx.bucket('model:finalize-rejected-unbound-macro-in-later-round')
+      else:
+        ctx.bucket('model:finalize-accepted')
+      ctx.check((rejected is not None) == expect_rejected, 'finalize-outcome-differs-from-fresh-process',
+                'round %d: finalize %s although the configuration is %s and %s binding refers to an unbound macro (bindings %r)'
+                % (rno + 1, 'rejected with %r' % (rejected,) if rejected is not None else 'accepted', 'locked' if was_locked else 'unlocked',
+                   'a' if M.unbound_macro() else 'no', sorted(M.store)))
+      if rejected is None:
+        M.locked = True
+      return rejected is None
+
     for op in rnd['ops']:
       ctx.bucket('op:' + op)
       shape.append(op)
       k = next(_n)
       try:
         if op == 'parse':
-          gin.parse_config("c20f.x = %d\nsc/c20f.y = [1, @c20g()]\nc20m = 'macro'\nc20g.a = %%c20m\n" % k)
-          bound_keys += ['c20f.x', 'sc/c20f.y', 'c20g.a']
+          mutate(lambda: gin.parse_config(FULL_PARSE % k),
+                 {'c20f.x': ('lit', k), 'sc/c20f.y': ('ref',), '%c20m': ('lit', 'macro'), 'c20g.a': ('macro', 'c20m')})
+        elif op == 'parse-macro-ref-unbound':
+          # refers to a macro that only an earlier 'parse' / 'bind-macro' of the same round binds
+          mutate(lambda: gin.parse_config('c20g.a = %c20m\n'), {'c20g.a': ('macro', 'c20m')})
         elif op == 'parse-fails':
           try:
             gin.parse_config("c20f.y = 'before-fault'\n" + ("c20f.x = [1, 2\n" if k % 2 else "c20f.nope = 1\n"))
           except Exception:  # pylint: disable=broad-except
             pass
           bound_keys += ['c20f.y']
+          # whether the statement before the fault took effect is another property's business: follow what happened
+          try:
+            if gin.query_parameter('c20f.y') == 'before-fault' and not M.locked:
+              M.store['c20f.y'] = ('lit', 'before-fault')
+          except ValueError:
+            pass
+        elif op == 'import-fails':
+          try:
+            with gin.unlock_config():
+              gin.parse_config('import c20_no_such_module_%d\nc20f.x = 1\n' % k)
+            M.store['c20f.x'] = ('lit', 1)      # not raised (never on the unchanged tree): then the binding was read
+          except Exception:  # pylint: disable=broad-except
+            pass
+          bound_keys += ['c20f.x']
+        elif op == 'parse-file':
+          if k % 2:
+            mutate(lambda: gin.parse_config_file(_S['file_inc']), {'c20f.x': ('lit', 11), 'file/c20f.y': ('lit', 'from-file'), 'c20g.a': ('lit', 12)})
+          else:
+            mutate(lambda: gin.parse_config_file(_S['file_a']), {'c20f.x': ('lit', 11), 'file/c20f.y': ('lit', 'from-file')})
+        elif op == 'files-and-bindings-finalize':
+          finalize_like(lambda: gin.parse_config_files_and_bindings([_S['file_a']], ['a/c20g.a = %d' % k], finalize_config=True),
+                        {'c20f.x': ('lit', 11), 'file/c20f.y': ('lit', 'from-file'), 'a/c20g.a': ('lit', k)})
         elif op == 'bind':
-          gin.bind_parameter('a/b/c20f.x', object() if k % 3 == 0 else k)
-          bound_keys += ['a/b/c20f.x']
+          v = object() if k % 3 == 0 else k
+          mutate(lambda: gin.bind_parameter('a/b/c20f.x', v), {'a/b/c20f.x': ('obj',) if k % 3 == 0 else ('lit', k)})
+        elif op == 'bind-macro':
+          mutate(lambda: gin.bind_parameter('%c20m', k), {'%c20m': ('lit', k)})
+        elif op == 'bind-unknown':
+          try:
+            gin.bind_parameter('c20_no_such_configurable.x', k)
+          except Exception:  # pylint: disable=broad-except
+            pass      # a failed operation is part of the history
         elif op == 'call':
           used_scopes.add(['sc', 'a/b', ''][k % 3])
           with gin.config_scope(['sc', 'a/b', ''][k % 3] or None):
@@ -112,38 +447,48 @@ def run_case(ctx, case):
               g.conf()
             except TypeError:
               pass  # a history may leave a reference to an unbound macro in place: that call fails, which is part of the history
+        elif op == 'call-raises':
+          sc = ['sc', 'a/b', ''][k % 3]
+          used_scopes.add(sc)
+          with gin.config_scope(sc or None):
+            try:
+              _S['boom']()
+            except Exception:  # pylint: disable=broad-except
+              pass
         elif op == 'finalize':
+          finalize_like(gin.finalize)
+        elif op == 'finalize-hook':
+          if not _S.get('hook_registered'):
+            gc.register_finalize_hook(_finalize_hook)     # mid-history, once per process
+            _S['hook_registered'] = True
+            ctx.bucket('hook:registered-mid-history')
+          _S['hook_active'] = True
           try:
-            gin.finalize()
-          except ValueError:
-            pass
+            if finalize_like(gin.finalize):
+              M.store['hk/c20f.y'] = ('lit', 'hooked')
+              bound_keys.append('hk/c20f.y')
+          finally:
+            _S['hook_active'] = False
         elif op == 'finalize-rejected':
-          with gin.unlock_config():
-            gin.parse_config('c20f.y = %c20_never_bound_macro')
-          bound_keys += ['c20f.y']
-          try:
-            gin.finalize()
-          except (ValueError, RuntimeError):
-            pass
+          mutate(lambda: gin.parse_config('c20f.y = %c20_never_bound_macro'), {'c20f.y': ('macro', 'c20_never_bound_macro')}, unlock=True)
+          finalize_like(gin.finalize)
         elif op == 'unlock':
-          with gin.unlock_config():
-            gin.bind_parameter('c20f.x', -k)
-          bound_keys += ['c20f.x']
+          mutate(lambda: gin.bind_parameter('c20f.x', -k), {'c20f.x': ('lit', -k)}, unlock=True)
         elif op == 'singleton':
-          with gin.unlock_config():
-            gin.parse_config(SINGLETON_CONFIG)
+          mutate(lambda: gin.parse_config(SINGLETON_CONFIG), {'c20use.s': ('ref',), 'shared/gin.singleton.constructor': ('ref',),
+                                                              'deep/er/gin.singleton.constructor': ('ref',)}, unlock=True)
           pre_singleton = use()
-          bound_keys += ['c20use.s']
+        elif op == 'singleton-direct':
+          direct_singleton = gc.singleton_value('c20direct', _S['ctor'])
         elif op == 'singleton-ctor-fails':
-          with gin.unlock_config():
-            gin.parse_config('shared/gin.singleton.constructor = @c20badctor\ndeep/er/gin.singleton.constructor = @c20badctor\n'
-                             'c20use.s = [@shared/gin.singleton(), @deep/er/gin.singleton()]\n')
+          mutate(lambda: gin.parse_config('shared/gin.singleton.constructor = @c20badctor\ndeep/er/gin.singleton.constructor = @c20badctor\n'
+                                          'c20use.s = [@shared/gin.singleton(), @deep/er/gin.singleton()]\n'),
+                 {'c20use.s': ('ref',), 'shared/gin.singleton.constructor': ('ref',), 'deep/er/gin.singleton.constructor': ('ref',)}, unlock=True)
           try:
             use()
           except TypeError:
             pass
           failed_singleton = True
-          bound_keys += ['c20use.s']
         elif op == 'call-then-bind-then-call':
           sc = ['sc', 'a/b', 'x/y/z'][k % 3]
           with gin.config_scope(sc):
@@ -152,9 +497,11 @@ def run_case(ctx, case):
               g.conf()
             except TypeError:
               pass
-          with gin.unlock_config():
+
+          def two():
             gin.bind_parameter('%s/c20f.x' % sc, k)
             gin.bind_parameter('c20g.a', -k)
+          mutate(two, {'%s/c20f.x' % sc: ('lit', k), 'c20g.a': ('lit', -k)}, unlock=True)
           with gin.config_scope(sc):
             try:
               f.conf()
@@ -162,29 +509,102 @@ def run_case(ctx, case):
               gin.get_bindings('c20.c20f')
             except TypeError:
               pass
-          bound_keys += ['%s/c20f.x' % sc, 'c20g.a']
           used_scopes.add(sc)
         elif op == 'constant':
-          gin.constant('c20.k%d.CONST%d' % (k, k), ('const', k))
+          full, value = 'c20.k%d.CONST%d' % (k, k), ('const', k)
+          gin.constant(full, value)
+          consts[full] = value
           # look it up through abbreviations, as config files do
           ctx.check(gin.query_parameter('CONST%d' % k) == ('const', k) and gin.query_parameter('k%d.CONST%d' % (k, k)) == ('const', k), 'constant-lookup', 'lookup by suffix failed')
-          with gin.unlock_config():
-            gin.parse_config('c20f.y = %%CONST%d' % k)
-          bound_keys += ['c20f.y']
+          mutate(lambda: gin.parse_config('c20f.y = %%CONST%d' % k), {'c20f.y': ('const', full)}, unlock=True)
           short_names.append('CONST%d' % k)
+        elif op == 'constant-duplicate':
+          full, value, again = 'c20.d%d.DUP%d' % (k, k), ('dup', k), ('dup-again', k)
+          gin.constant(full, value)
+          consts[full] = value
+          try:
+            gin.constant(full if k % 2 else 'DUP%d' % k, again)     # the same name / a name the existing one answers to
+            consts[full if k % 2 else 'DUP%d' % k] = again      # accepted (not on the unchanged tree): then it is a constant
+          except Exception:  # pylint: disable=broad-except
+            pass
         elif op == 'constant-interactive-overlap':
+          outer, inner = ('outer', k), ('inner', k)
           with gin.config.interactive_mode():
-            gin.constant('c20.i%d.OVER%d' % (k, k), ('outer', k))
-            gin.constant('OVER%d' % k, ('inner', k))
+            gin.constant('c20.i%d.OVER%d' % (k, k), outer)
+            consts['c20.i%d.OVER%d' % (k, k)] = outer
+            gin.constant('OVER%d' % k, inner)
+            consts['OVER%d' % k] = inner
           overlapping = True
+          short_names.append('OVER%d' % k)
+        elif op == 'constant-overlap-ambiguous':
+          # pkg.sched.RATE and sched.RATE, either order: %RATE is ambiguous, %sched.RATE is the shorter one
+          pair = [('c20.p%d.sched%d.RATE%d' % (k, k, k), ('outer-rate', k)), ('sched%d.RATE%d' % (k, k), ('inner-rate', k))]
+          with gin.config.interactive_mode():
+            for name, value in (pair if k % 2 else pair[::-1]):
+              gin.constant(name, value)
+              consts[name] = value
+          overlapping = True
+          short_names.append('sched%d.RATE%d' % (k, k))
         elif op == 'enum':
           E = enum.Enum('E%d' % k, 'RED GREEN')
           gin.config.constants_from_enum(E, module='c20.enums')
+          consts['c20.enums.E%d.RED' % k] = E.RED
+          consts['c20.enums.E%d.GREEN' % k] = E.GREEN
+          short_names.append('E%d.RED' % k)
         elif op == 'import':
           with gin.unlock_config():
             gin.parse_config('import os.path\nfrom json import decoder as dec%d\n' % k)
+        elif op == 'register-mid-history':
+          def fn(v='dflt'):
+            return ('c20r', v)
+          fn.__name__ = fn.__qualname__ = 'c20r%d' % k
+          if k % 3 == 0:
+            gin.external_configurable(fn, 'c20r%d' % k, module='c20.dyn')
+            obj = fn
+          elif k % 3 == 1:
+            gin.register('c20r%d' % k, module='c20.dyn')(fn)
+            obj = fn
+          else:
+            obj = gin.configurable('c20r%d' % k, module='c20.dyn')(fn)
+          registered.append((obj, 'c20.dyn.c20r%d' % k, 'c20r%d.v' % k))
+          mutate(lambda: gin.bind_parameter('c20r%d.v' % k, k), {'c20r%d.v' % k: ('lit', k)}, unlock=True)
+        elif op == 'dynamic-registration':
+          mod, cls, arg, val, _ = DYNAMIC_TARGETS[k % len(DYNAMIC_TARGETS)]
+          mutate(lambda: gin.parse_config('from __gin__ import dynamic_registration\nfrom json import %s\n%s.%s.%s = %r\n' % (mod, mod, cls, arg, val)),
+                 {'json.%s.%s.%s' % (mod, cls, arg): ('lit', val)}, unlock=True)
+          dynamic.add(k % len(DYNAMIC_TARGETS))
       except RuntimeError:
         pass  # mutation attempted while locked: part of the history
+    # ---- before the clear: this round's operations took effect as they do in a fresh process (the round started from a cleared configuration)
+    ctx.check(gin.config_is_locked() == M.locked, 'lock-state-differs-from-fresh-process',
+              'round %d: config_is_locked() is %s, the history leaves it %s' % (rno + 1, gin.config_is_locked(), M.locked))
+    for key, d in M.store.items():
+      try:
+        got = gin.query_parameter(key)
+        ok = (got == d[1] and type(got) is type(d[1])) if d[0] == 'lit' else (type(got) is object) if d[0] == 'obj' else True
+        msg = 'answers %r, bound was %r' % (got, d)
+      except Exception as e:  # pylint: disable=broad-except
+        ok, msg = False, 'raises %r' % (e,)
+      ctx.check(ok, 'binding-made-after-clear-not-in-effect', 'round %d: query_parameter(%r) %s' % (rno + 1, key, msg))
+    if rno and M.store:
+      ctx.bucket('model:bindings-checked-before-clear-in-later-round')
+    if rnd.get('probe'):
+      # the unscoped call and two of the scopes this round bound something in (the post-clear calls reuse them)
+      scoped = sorted(set(key.rsplit('/', 1)[0] for key in M.store if '/' in key and key.rsplit('/', 1)[0] in PROBE_SCOPES))
+      for sc in [''] + scoped[len(rnd['ops']) % 2:][:2]:
+        ex, ey = M.effective(sc, 'c20f.x'), M.effective(sc, 'c20f.y')
+        if ey is not None and ey[0] in ('ref', 'macro'):
+          continue
+        used_scopes.add(sc)
+        mark = probes.RECORDER.mark()
+        with gin.config_scope(sc or None):
+          f.conf()
+        recv = probes.RECORDER.since(mark)[-1].received
+        okx = (recv['x'] == 0) if ex is None else (type(recv['x']) is object) if ex[0] == 'obj' else (recv['x'] == ex[1])
+        wanty = 'd' if ey is None else ey[1] if ey[0] == 'lit' else consts.get(ey[1])
+        ctx.bucket('model:deliveries-checked-before-clear')
+        ctx.check(okx and recv['y'] == wanty, 'binding-made-after-clear-not-delivered',
+                  'round %d: under scope %r c20f received %r; the bindings in effect are x: %r, y: %r' % (rno + 1, sc, recv, ex, ey))
     # ---- state at the moment of the clear
     if gin.config_is_locked():
       ctx.bucket('state:locked-at-clear')
@@ -220,6 +640,15 @@ def run_case(ctx, case):
       ctx.check(set(consts_after) == set(consts_before) and all(consts_after[k] is consts_before[k] for k in consts_before), 'constants-after-clear',
                 'clear_config() changed the constants: before %r after %r' % (sorted(consts_before), sorted(consts_after)))
     if raised is None:
+      lookups = check_constant_queries(ctx, gin, consts, cc)
+      if rnd.get('epilogue') is not None:
+        # what the API does from here on is what it does in a fresh interpreter with the same registrations
+        compare_with_fresh(ctx, rnd['epilogue'], cc)
+        gin.clear_config(clear_constants=cc)
+        now = observe(gin, gc)
+        d = {k: (now[k], pristine[k]) for k in pristine if now[k] != pristine[k]}
+        ctx.check(not d, 'state-left-after-clear', 'after a second clear_config(clear_constants=%s) (history + program %d) these observables differ from '
+                  'the pristine baseline (now, pristine): %r' % (cc, rnd['epilogue'], {k: repr(v)[:300] for k, v in d.items()}))
       for key in set(bound_keys):
         try:
           gin.query_parameter(key)
@@ -253,11 +682,50 @@ def run_case(ctx, case):
         gin.parse_config(SINGLETON_CONFIG)
         again = use()
         ctx.check(not any(a is b for a in again for b in pre_singleton), 'singleton-survived-clear', 'a singleton constructed before clear_config was delivered again')
+      if direct_singleton is not None:
+        ctx.bucket('singleton:direct-checked-after-clear')
+        try:
+          left = gc.singleton_value('c20direct')
+        except ValueError:
+          left = None
+        ctx.check(left is None, 'singleton-survived-clear', 'singleton_value(key) still answers after clear_config for a key constructed before it')
+        ctx.check(gc.singleton_value('c20direct', _S['ctor']) is not direct_singleton, 'singleton-survived-clear',
+                  'singleton_value(key, constructor) returned the object constructed before clear_config')
       ctx.check(gin.get_configurable('c20.c20f') is not None and gin.get_configurable(g.original) is not None, 'configurable-lost', 'registered configurables no longer resolve')
+      # configurables registered during the histories of this case (before this or an earlier clear) remain, and remain configurable
+      for obj, selector, key in registered:
+        ctx.bucket('registered:mid-history-checked-after-clear')
+        try:
+          w = gin.get_configurable(obj)
+          first = w()
+          gin.bind_parameter(key, 'rebound')
+          ok = first == ('c20r', 'dflt') and gin.get_configurable(selector)() == ('c20r', 'rebound')
+          msg = 'delivers %r without bindings' % (first,)
+        except Exception as e:  # pylint: disable=broad-except
+          ok, msg = False, 'raises %r' % (e,)
+        ctx.check(ok, 'configurable-lost:registered-mid-history', 'after clear_config the configurable %s registered during the history %s' % (selector, msg))
+      for i in sorted(dynamic):
+        mod, cls, arg, val, dflt = DYNAMIC_TARGETS[i]
+        ctx.bucket('registered:dynamic-checked-after-clear')
+        target = getattr(getattr(json, mod), cls)
+        try:
+          w = gin.get_configurable(target)
+          first = getattr(w(), arg)
+          gin.parse_config('json.%s.%s.%s = %r\n' % (mod, cls, arg, val))      # no dynamic registration here: the name is in the registry
+          ok = first == dflt and getattr(w(), arg) == val
+          msg = 'gives %s=%r without bindings' % (arg, first)
+        except Exception as e:  # pylint: disable=broad-except
+          ok, msg = False, 'raises %r' % (e,)
+        ctx.check(ok, 'configurable-lost:registered-by-dynamic-registration',
+                  'after clear_config json.%s.%s, registered by a dynamic-registration parse during the history, %s' % (mod, cls, msg))
       if cc:
         # the cleared constants are really gone: their abbreviations are free again (as macro names and for new constants)
         for sn in short_names:
           ctx.bucket('state:abbreviation-looked-up-before-clear')
+          if sn.startswith('E'):
+            ctx.bucket('cleared:enum-name-free')
+          elif not sn.startswith('CONST'):
+            ctx.bucket('cleared:overlap-name-free')
           try:
             gin.constant(sn, 'redefined')
             ok = gin.query_parameter(sn) == 'redefined'
@@ -269,6 +737,28 @@ def run_case(ctx, case):
             ctx.check(False, 'cleared-constant-still-answers', 'c20x.%s resolved' % sn) if False else None
           except Exception as e:  # pylint: disable=broad-except
             ctx.check(False, 'cleared-constant-still-answers', 'parsing %%c20x.%s after the clear raised %r' % (sn, e))
+        for name in list(consts):
+          if name != 'gin.REQUIRED':
+            del consts[name]
+      else:
+        # the surviving constants reach a call through %NAME under every abbreviation the suffix model resolves; ambiguous ones are rejected
+        gin.clear_config()
+        step = max(1, len(lookups) // 4)
+        for partial, matches in lookups[len(rnd['ops']) % step::step][:5]:
+          if matches == ['gin.REQUIRED']:
+            continue
+          try:
+            gin.parse_config('c20f.y = %%%s\n' % partial)
+            recv = None
+            mark = probes.RECORDER.mark()
+            f.conf()
+            recv = probes.RECORDER.since(mark)[-1].received['y']
+            ok = len(matches) == 1 and recv is consts[matches[0]]
+            msg = 'delivers %r' % (recv,)
+          except Exception as e:  # pylint: disable=broad-except
+            ok, msg = len(matches) > 1, 'raises %r' % (e,)
+          ctx.bucket('lookup:delivered-to-call-after-keep-clear')
+          ctx.check(ok, 'constant-lookup-after-clear', 'after clear_config() a binding to %%%s %s; constants matching that name: %r' % (partial, msg, matches))
       # leave the round clean (the probe calls above recorded operative entries)
       gin.clear_config(clear_constants=cc)
     else:
@@ -276,9 +766,51 @@ def run_case(ctx, case):
       gc._CONSTANTS.clear()
       gc._CONSTANTS['gin.REQUIRED'] = gin.REQUIRED
       gin.clear_config(clear_constants=True)
+      for name in list(consts):
+        if name != 'gin.REQUIRED':
+          del consts[name]
   ctx.fp(tuple(shape), tuple(r['clear_constants'] for r in case['rounds']))
   ctx.sample({'rounds': case['rounds']}, cap=3)
   gin.clear_config(clear_constants=True)
+
+
+def check_constant_queries(ctx, gin, consts, cc):
+  """Right after the clear: every abbreviation of every constant defined by the histories answers as the suffix model says (constants kept) or not at
+  all (constants cleared). Returns the (abbreviation, matching full names) pairs."""
+  names = list(consts)
+  lookups = []
+  seen = set()
+  for name in names:
+    for partial in suffixes(name):
+      if partial in seen:
+        continue
+      seen.add(partial)
+      matches = const_matches(names, partial)
+      lookups.append((partial, matches))
+      if cc and name == 'gin.REQUIRED':
+        continue
+      try:
+        got = gin.query_parameter(partial)
+        answered = True
+      except Exception as e:  # pylint: disable=broad-except
+        got, answered = e, False
+      if cc:
+        ctx.bucket('cleared:every-abbreviation-unanswered')
+        ctx.check(not answered, 'cleared-constant-still-answers',
+                  'after clear_config(clear_constants=True) query_parameter(%r) still answers %r (constant %s defined before the clear)' % (partial, got, name))
+      elif len(matches) == 1:
+        ctx.bucket('lookup:resolved-after-keep-clear')
+        if any(n != partial and n.endswith('.' + partial) for n in names):
+          ctx.bucket('lookup:overlap-exact-after-keep-clear')
+        if '.enums.' in matches[0]:
+          ctx.bucket('lookup:enum-after-keep-clear')
+        ctx.check(answered and got is consts[matches[0]], 'constant-lookup-after-clear',
+                  'after clear_config() query_parameter(%r) gives %r; the constant %s defined before the clear is %r' % (partial, got, matches[0], consts[matches[0]]))
+      else:
+        ctx.bucket('lookup:ambiguous-after-keep-clear')
+        ctx.check(not answered, 'constant-lookup-after-clear',
+                  'after clear_config() query_parameter(%r) answers %r although the constants %r all match it (ambiguous before the clear)' % (partial, got, matches))
+  return lookups
 
 
 def has_overlap(consts):
@@ -286,9 +818,14 @@ def has_overlap(consts):
   return any(a != b and a.endswith('.' + b) for a in names for b in names)
 
 
-LEVEL_TEXT = ('Runtime monitor comparing, after every clear_config at the end of a generated history (failed parses, locked configs, operative '
-              'records, imports, singletons, overlapping interactive-mode constants, several rounds), the full set of observables with the pristine '
-              'baseline recorded in the same worker right after registration, plus constant identity and fresh-singleton checks.')
-LEVEL_NOTE = 'Trusted: the observation function (public API + private stores for a stronger snapshot). A fresh process is approximated by the worker\'s own post-registration baseline.'
-TECHNIQUE = 'runtime history monitor: observables after clear_config vs pristine baseline'
+LEVEL_TEXT = ('Runtime monitor comparing, after every clear_config at the end of a generated history (failed parses and imports, file-based entry points, '
+              'locked configs, operative records, imports, singletons, finalize hooks, overlapping interactive-mode constants, configurables registered '
+              'mid-history, several rounds), the full set of observables with the pristine baseline recorded in the same worker right after registration, '
+              'plus constant identity and lookup through every abbreviation, fresh-singleton checks, and fixed programs of API operations run right after '
+              'the clear whose step-by-step outcomes are compared with a fresh interpreter holding the same registrations; a small model of each round '
+              'decides finalize accepted / rejected, the lock flag and the bindings in effect before the next clear.')
+LEVEL_NOTE = ('Trusted: the observation function (public API + private stores for a stronger snapshot), the round model and the suffix model of constant '
+              'names. The fresh process is a real interpreter (forked per program, never configured) for eight fixed programs; for everything else it is '
+              'approximated by the worker\'s own post-registration baseline.')
+TECHNIQUE = 'runtime history monitor: observables after clear_config vs pristine baseline, round model, fresh-interpreter comparison of post-clear programs'
 DESIGN_REF = 'DESIGN.md section 4, C20'
